@@ -239,8 +239,10 @@ class Run:
         self.evaluations += st['evaluations']
         self.nontrivial |= st['nontrivial']
         self.classes.update(st['classes'])
-        for s in st['samples']:
-            if len(self.samples) < self.MAX_SAMPLES:
+        # at most two samples per shard so that the evidence shows cases of
+        # several generators, not only of the first shard
+        for s in st['samples'][:1] + st['samples'][-1:]:
+            if s not in self.samples:
                 self.samples.append(s)
         for v in st['violations']:
             for w in self.violations:
@@ -395,6 +397,14 @@ def _jsonable(x, depth=0):
 
 # ---------------------------------------------------------------------------
 
+def _pick(samples, n):
+    """n samples evenly spread over everything collected"""
+    if len(samples) <= n:
+        return list(samples)
+    step = (len(samples) - 1) / float(n - 1)
+    return [samples[int(round(i * step))] for i in range(n)]
+
+
 def load_prop(pid):
     return importlib.import_module('vf.props.' + pid.lower())
 
@@ -421,7 +431,7 @@ def write_evidence(mod, run, wall):
         'evaluations': run.evaluations,
         'distinct_nontrivial': len(run.nontrivial),
         'rule': mod.RULE,
-        'samples': run.samples[:Run.MAX_SAMPLES],
+        'samples': _pick(run.samples, Run.MAX_SAMPLES),
         'classes': dict(sorted(run.classes.items())),
         'known_findings_hit': dict(run.known_hits),
         'excluded_by_construction': dict(run.excluded),
